@@ -33,6 +33,15 @@ fn take_reader(db: &Db, n: u64) -> Option<Reader> {
 	db.get_tree(1, &key).ok().flatten()
 }
 
+/// an open attempt: read-only when asked for and a database exists, read-write otherwise
+fn open_as(dir: &Path, read_only: bool) -> parity_db::Result<Db> {
+	if read_only && dir.join("metadata").exists() {
+		Db::open_read_only(&options(dir))
+	} else {
+		Db::open_or_create(&options(dir))
+	}
+}
+
 fn open_code(r: &parity_db::Result<Db>) -> u64 {
 	match r {
 		Ok(_) => 0,
@@ -56,7 +65,7 @@ fn write_through(db: &Db, c: u64) -> u64 {
 /// the child process: open, report, then obey commands on stdin
 pub fn child_main(args: &[String]) -> i32 {
 	let dir = PathBuf::from(&args[0]);
-	let r = Db::open_or_create(&options(&dir));
+	let r = open_as(&dir, args.get(1).map_or(false, |a| a == "ro"));
 	println!("{}", open_code(&r));
 	let _ = std::io::stdout().flush();
 	let db = match r {
@@ -90,9 +99,9 @@ enum Handle {
 	Remote(Child, BufReader<std::process::ChildStdout>),
 }
 
-fn spawn_child(dir: &Path) -> (Child, BufReader<std::process::ChildStdout>) {
+fn spawn_child(dir: &Path, read_only: bool) -> (Child, BufReader<std::process::ChildStdout>) {
 	let exe = std::env::current_exe().unwrap();
-	let mut ch = Command::new(exe).arg("c18child").arg(dir).stdin(Stdio::piped()).stdout(Stdio::piped()).stderr(Stdio::null()).spawn().expect("spawn child");
+	let mut ch = Command::new(exe).arg("c18child").arg(dir).arg(if read_only { "ro" } else { "rw" }).stdin(Stdio::piped()).stdout(Stdio::piped()).stderr(Stdio::null()).spawn().expect("spawn child");
 	let out = BufReader::new(ch.stdout.take().unwrap());
 	(ch, out)
 }
@@ -136,6 +145,9 @@ pub fn main(args: &[String]) -> i32 {
 		let _ = std::fs::remove_dir_all(&dir);
 		std::fs::create_dir_all(&dir).unwrap();
 		let mut handles: BTreeMap<u64, Handle> = BTreeMap::new();
+		// handles opened read-only (a third of the attempts once a database exists): they exclude and are excluded
+		// like any other handle; they are not asked to write
+		let mut read_only: std::collections::BTreeSet<u64> = std::collections::BTreeSet::new();
 		// tree readers handed out by handles of this process; kept until the end of the history, whatever
 		// happens to the handle they came from
 		let mut kept_readers: Vec<Reader> = Vec::new();
@@ -155,12 +167,17 @@ pub fn main(args: &[String]) -> i32 {
 					let h = next_h;
 					next_h += 1;
 					let before = snapshot(&dir);
+					let ro = rng.chance(1, 3) && dir.join("metadata").exists();
+					if ro {
+						read_only.insert(h);
+						*dist.entry("op-open-read-only".into()).or_insert(0) += 1;
+					}
 					let code = if rng.chance(1, 2) {
 						let d = dir.clone();
-						let r = std::thread::spawn(move || Db::open_or_create(&options(&d))).join().unwrap();
+						let r = std::thread::spawn(move || open_as(&d, ro)).join().unwrap();
 						let c = open_code(&r);
 						if let Ok(db) = r {
-							if rng.chance(1, 2) {
+							if !ro && rng.chance(1, 2) {
 								if let Some(rd) = take_reader(&db, h) {
 									kept_readers.push(rd);
 									*dist.entry("tree-reader-kept-beyond-its-handle".into()).or_insert(0) += 1;
@@ -170,7 +187,7 @@ pub fn main(args: &[String]) -> i32 {
 						}
 						c
 					} else {
-						let (mut ch, mut o) = spawn_child(&dir);
+						let (mut ch, mut o) = spawn_child(&dir, ro);
 						let c = read_code(&mut o);
 						if c == 0 {
 							handles.insert(h, Handle::Remote(ch, o));
@@ -198,17 +215,24 @@ pub fn main(args: &[String]) -> i32 {
 					let had_holder = !live.is_empty();
 					let barrier = std::sync::Arc::new(std::sync::Barrier::new(nthreads + 1));
 					let mut ths = Vec::new();
+					// a racer that opens read-only (the database exists then); the winner is not asked to write if any did
+					let db_exists = dir.join("metadata").exists();
+					let mut any_ro = false;
 					for _ in 0..nthreads {
 						let d = dir.clone();
 						let b = barrier.clone();
+						let ro = db_exists && rng.chance(1, 3);
+						any_ro |= ro;
 						ths.push(std::thread::spawn(move || {
 							b.wait();
-							Db::open_or_create(&options(&d))
+							open_as(&d, ro)
 						}));
 					}
 					let mut kids = Vec::new();
 					for _ in nthreads..n {
-						kids.push(spawn_child(&dir));
+						let ro = db_exists && rng.chance(1, 3);
+						any_ro |= ro;
+						kids.push(spawn_child(&dir, ro));
 					}
 					barrier.wait();
 					let mut winners: Vec<Handle> = Vec::new();
@@ -254,6 +278,9 @@ pub fn main(args: &[String]) -> i32 {
 						nops += 1;
 						if first && !winners.is_empty() {
 							handles.insert(h, winners.remove(0));
+							if any_ro {
+								read_only.insert(h);
+							}
 							obs.push(0);
 						} else {
 							obs.push(1);
@@ -307,7 +334,7 @@ pub fn main(args: &[String]) -> i32 {
 					},
 				// the holder writes
 				_ =>
-					if let Some(h) = live.first().cloned() {
+					if let Some(h) = live.first().cloned().filter(|h| !read_only.contains(h)) {
 						let c = rng.range(1, 1 << 30);
 						let code = match handles.get_mut(&h).unwrap() {
 							Handle::Local(db) => write_through(db, c),
